@@ -79,6 +79,8 @@ def run(ctx):
                 name = it[0][0]
                 what = "length" if it[1] != ref[1] else "header" if it[2] != ref[2] else "audio_data"
                 key = "%s:%s_differs" % (formats.family(formats.MAJORS[name.split("/")[0]] | formats.SUBS[name.split("/")[1]]), what)
+                if what == "header" and name.split("/")[1] in ("FLOAT", "DOUBLE") and it[0][1] == 3 and it[0][2] * 3 > 1024:
+                    key = "peak:staged_chunk_not_frame_aligned"       # the C18 finding seen through the PEAK chunk of the header
                 if key in seen:
                     continue
                 seen.add(key)
